@@ -768,7 +768,7 @@ func ruleReplyFormat(c *Ctx) {
 		}
 		nLen++
 		d := describe(call.Call.Args[0])
-		R.Ob(c.siteKey(in, "line count is taken of the split text"), c.P.InstrPos(in), strings.HasPrefix(d, "strings.Split("), "the last-line index is computed from len("+d+"), not from the text split into lines: a multi-line message passed as one argument is cut after its first line")
+		R.Ob(c.siteKey(in, "line count is taken of the split text"), c.P.InstrPos(in), strings.Contains(d, "strings.Split("), "the last-line index is computed from len("+d+"), not from the text split into lines: a multi-line message passed as one argument is cut after its first line")
 	})
 	R.Ob("(*Conn).writeResponse/line count found", c.P.Pos(f.Pos()), nLen >= 1, "no len(…)-1 computation found in writeResponse")
 	loops := findLoops(f)
